@@ -29,7 +29,10 @@ def xis():
     )
 
 
-_fl = st.floats(-1e3, 1e3, allow_nan=False, allow_infinity=False, allow_subnormal=False)
+# element-wise floats: non-zero magnitudes below 1e-30 are flushed to 0 (products of such values underflow, which
+# breaks exact scaling laws without being a defect of the library; no physical record has them)
+_fl = st.floats(-1e3, 1e3, allow_nan=False, allow_infinity=False, allow_subnormal=False).map(
+    lambda x: 0.0 if abs(x) < 1e-30 else x)
 
 
 def amp_exps(lo=-6, hi=6):
